@@ -4,7 +4,8 @@ import random
 import string
 
 PRINTABLE = [chr(c) for c in range(32, 127)]
-UNI = ["é", "ß", "ж", "日", "本", "😀", "𝄞", "€", "ñ"]
+UNI = ["é", "ß", "ж", "日", "本", "😀", "𝄞", "€", "ñ",
+       "ı", "ſ", "ﬁ", "İ", "ɐ", "ǅ", "ŉ", "à", "Å", "†", "😅"]   # case mappings that change the byte length; final bytes 0x85 / 0xA0
 TOKEN = string.ascii_letters + string.digits + "-_"
 
 
@@ -71,6 +72,8 @@ def c15(tier, seed):
             parts.append({"ct": rng.choice(["text/plain", "image/png", "application/octet-stream", "text/html", "text/plain; charset=utf-8", "Text/HTML", "application/x.y+json"]),
                           "lo": lo, "hi": lo + len(b), "size": 2100000000, "body": b})
         hs = [{"n": "X-" + text(rng, 5, TOKEN), "v": text(rng, rng.randrange(1, 20), PRINTABLE).strip() or "v"} for _ in range(rng.randrange(0, 4))]
+        if hs and rng.random() < 0.2:
+            hs.insert(rng.randrange(len(hs) + 1), {"n": hs[0]["n"], "v": text(rng, 4, TOKEN)})      # the same name again
         out.append({"kind": "resp", "ser": rng.choice(["assoc", "method"]), "status": s[0], "phrase": s[1], "headers": hs, "parts": parts})
     return out
 
@@ -88,8 +91,8 @@ def c16(tier, seed):
         bd = bd[:70].rstrip()
         parts = []
         for i in range(rng.randrange(1, 9)):
-            hs = [{"n": "Content-Disposition", "v": 'form-data; name="f%d"' % i}]
-            for _ in range(rng.randrange(0, 4)):
+            hs = [{"n": "Content-Disposition", "v": 'form-data; name="f%d"' % i}] if rng.random() < 0.8 else []     # not every part has one
+            for _ in range(rng.randrange(0 if hs else 1, 4)):
                 hs.append({"n": "X-" + text(rng, 4, TOKEN), "v": text(rng, rng.randrange(1, 12), string.ascii_letters + string.digits + "/;=.")})
             parts.append({"headers": hs, "body": rbytes(rng, rng.choice([0, 1, 2, 3, 4, 100, 65536 if tier == "thorough" and rng.random() < 0.05 else 900]))})
         out.append({"kind": "multipart", "boundary": bd, "parts": parts})
@@ -138,18 +141,24 @@ def c19(tier, seed):
         n = rng.randrange(0, 12) if rng.random() < 0.97 else rng.choice([255, 256, 257, 4096, 5000])
         return text(rng, n, [c for c in PRINTABLE if c not in '"\\'])
 
+    def count():
+        # the count principle for every repeated structure, at every position
+        return rng.choice([0, 0, 1, 2, 3, 10, 31, 32, 33, 40, 64, 65, 100]) if rng.random() < 0.5 else rng.choice([0, 1, 2, 3])
+
     def leaf():
         chain = [{"name": s(), "n": integer()} for _ in range(rng.choice([0, 0, 0, 1, 2, 3]))]
-        return {"name": s(), "n": integer(), "chain": chain}
-    noleaf = {"p": False, "v": {"name": "", "n": "0", "chain": []}}
+        tags = {"p": True, "v": [integer() for _ in range(rng.choice([0, 1, 2, 3]))]} if rng.random() < 0.4 else {"p": False, "v": []}
+        return {"name": s(), "n": integer(), "chain": chain, "tags": tags}
+    noleaf = {"p": False, "v": {"name": "", "n": "0", "chain": [], "tags": {"p": False, "v": []}}}
     out = []
     for _ in range(150 if tier == "quick" else 6000):
-        inner = {"label": s(), "flag": rng.choice(["true", "false"]), "leaf": {"p": True, "v": leaf()} if rng.random() < 0.5 else noleaf}
+        inner = {"label": s(), "flag": rng.choice(["true", "false"]), "leaf": {"p": True, "v": leaf()} if rng.random() < 0.5 else noleaf,
+                 "items": {"p": True, "v": [leaf() for _ in range(count())]} if rng.random() < 0.5 else {"p": False, "v": []}}
         out.append({"kind": "json_object", "s": opt(s(), ""), "b": opt(rng.choice(["true", "false"]), ""), "i": opt(integer(), ""), "f": opt(flt(), ""),
-                    "obj": {"p": True, "v": inner} if rng.random() < 0.6 else {"p": False, "v": {"label": "", "flag": "false", "leaf": noleaf}},
-                    "objs": opt([leaf() for _ in range(rng.choice([0, 1, 2, 10]))], []),
-                    "ints": opt([integer() for _ in range(rng.choice([0, 1, 3, 64]))], []),
-                    "strs": opt([s() for _ in range(rng.choice([0, 1, 3, 64]))], [])})
+                    "obj": {"p": True, "v": inner} if rng.random() < 0.6 else {"p": False, "v": {"label": "", "flag": "false", "leaf": noleaf, "items": {"p": False, "v": []}}},
+                    "objs": opt([leaf() for _ in range(count())], []),
+                    "ints": opt([integer() for _ in range(count())], []),
+                    "strs": opt([s() for _ in range(count())], [])})
     lim = {"i8": 7, "i16": 15, "i32": 31, "i64": 63, "i128": 127, "u8": 8, "u16": 16, "u32": 32, "u64": 64, "u128": 128}
     for _ in range(100 if tier == "quick" else 3000):
         ty = rng.choice(list(lim) + ["f64", "f32", "string", "bool"])
